@@ -395,9 +395,20 @@ def tbl25_decoder_validates_what_the_applier_assumes(ctx):
         for cb in list(P.resolve(t.func, ING.crate)) + list(P.closures_in_text(t.func)):
             if validators & set(P.reachable_bodies([cb])) or cb.name in validators:
                 vsites.append(blk.id)
-    firsts = [blk.id for (blk, t) in ING.calls() if not blk.cleanup and
-              (re.search(r'Mutex::<[^>]*>::lock$|Mutex::lock$', norm_callee(t.func or '')) or
-               norm_callee(t.func or '').endswith('thread::spawn') or 'std::thread::spawn' in norm_callee(t.func or ''))]
+    def locks_or_spawns(f):
+        n = norm_callee(f or '')
+        return bool(re.search(r'Mutex::<[^>]*>::lock$|Mutex::lock$', n) or n.endswith('thread::spawn') or
+                    'std::thread::spawn' in n)
+    firsts = [blk.id for (blk, t) in ING.calls() if not blk.cleanup and locks_or_spawns(t.func)]
+    # ... or through a helper of the crate that takes the lock / starts the writer (a wrapper that
+    # waits for the log to be below its limit and returns the guard)
+    direct = {b.name for (b, _blk, _t) in P.call_sites(locks_or_spawns)}
+    for (blk, t) in ING.calls():
+        if blk.cleanup or not t.func or blk.id in firsts or blk.id in vsites:
+            continue
+        cbs = list(P.resolve(t.func, ING.crate)) + list(P.closures_in_text(t.func))
+        if cbs and direct & (set(P.reachable_bodies(cbs)) | {cb.name for cb in cbs}):
+            firsts.append(blk.id)
     # the validation usually sits in a loop over the tables of the request: the loop (its header) has to
     # come before the lock / the log writer on every path
     loops = {h: icfg.natural_loop(h) for h in icfg.loop_headers()}
